@@ -47,7 +47,35 @@ pub struct ProbeU {
     b: flatty::FlatVec<le::U32, u16>,
 }
 
-#[cfg(not(any(feature = "tag_u16", feature = "tag_u32", feature = "np_sized_field", feature = "np_struct_tail", feature = "np_enum_tail", feature = "np_native_len")))]
+#[cfg(feature = "np_flex_native_len")]
+#[flat(sized = false, portable = true)]
+pub struct ProbeU {
+    a: le::U16,
+    b: flatty::FlexVec<flatty::FlatVec<u8, le::U16>, u32>,
+}
+
+#[cfg(feature = "np_string_native_len")]
+#[flat(sized = false, portable = true)]
+pub enum ProbeU {
+    A,
+    B(le::U16, flatty::FlatString<u16>),
+}
+
+#[cfg(feature = "np_flex_item")]
+#[flat(sized = false, portable = true)]
+pub struct ProbeU {
+    a: le::U16,
+    b: flatty::FlexVec<flatty::FlatVec<u32, le::U16>, le::U16>,
+}
+
+#[cfg(feature = "np_array_item")]
+#[flat(sized = false, portable = true)]
+pub struct ProbeU {
+    a: [u16; 3],
+    b: flatty::FlatVec<u8, le::U16>,
+}
+
+#[cfg(not(any(feature = "tag_u16", feature = "tag_u32", feature = "np_sized_field", feature = "np_struct_tail", feature = "np_enum_tail", feature = "np_native_len", feature = "np_flex_native_len", feature = "np_string_native_len", feature = "np_flex_item", feature = "np_array_item")))]
 #[flat(portable = true)]
 #[derive(Clone, Copy)]
 pub enum Probe {
@@ -57,7 +85,7 @@ pub enum Probe {
 
 fn assert_portable<T: flatty::Portable + ?Sized>() {}
 
-#[cfg(any(feature = "np_struct_tail", feature = "np_enum_tail", feature = "np_native_len"))]
+#[cfg(any(feature = "np_struct_tail", feature = "np_enum_tail", feature = "np_native_len", feature = "np_flex_native_len", feature = "np_string_native_len", feature = "np_flex_item", feature = "np_array_item"))]
 fn main() {
     assert_portable::<ProbeU>();
     println!("align={} claims-portable", <ProbeU as FlatBase>::ALIGN);
@@ -69,7 +97,7 @@ fn main() {
     println!("align={} claims-portable", <Probe as FlatBase>::ALIGN);
 }
 
-#[cfg(not(any(feature = "np_sized_field", feature = "np_struct_tail", feature = "np_enum_tail", feature = "np_native_len")))]
+#[cfg(not(any(feature = "np_sized_field", feature = "np_struct_tail", feature = "np_enum_tail", feature = "np_native_len", feature = "np_flex_native_len", feature = "np_string_native_len", feature = "np_flex_item", feature = "np_array_item")))]
 fn main() {
     assert_portable::<Probe>();
     let v = Probe::B(le::U16::from(0x1234));
